@@ -49,6 +49,14 @@ let () =
       let ac = Coarsen.sa_coarse sc 1 a p r in
       show_crs ac ^ " " ^ show_tr (Coarsen.sa_transfer sc eps2n relax c23 1 ac (junk0 ac))
     | x -> show_tr x);
+  reg "emin" (fun t -> let a = t_crs t in let _ = t_q t in let eps2 = t_q t in let bs = t_i t in
+    show_tr (Coarsen.emin_transfer sc 1 eps2 bs a (junk0 a)));
+  reg "emin2" (fun t -> let a = t_crs t in let _ = t_q t in let eps2 = t_q t in let eps2n = t_q t in
+    (match Coarsen.emin_transfer sc 1 eps2 1 a (junk0 a) with
+     | Coarsen.TrOk (p, r) ->
+       let ac = Coarsen.emin_coarse sc 1 a p r in
+       show_crs ac ^ " " ^ show_tr (Coarsen.emin_transfer sc 1 eps2n 1 ac (junk0 ac))
+     | x -> show_tr x));
   reg "rs" (fun t -> let a = t_crs t in let eps = t_q t in let dt = t_i t in let et = t_q t in let fill = t_i t in
     show_tr (Coarsen.rs_transfer sc eps et (dt <> 0) a (junk_flags a fill)));
   reg "rs_cf" (fun t -> let a = t_crs t in let eps = t_q t in let fill = t_i t in
@@ -74,6 +82,10 @@ let () =
     let omega = t_q t in let p = t_crs t in
     let pt = Tentative.tentative_prolongation sc naggr id in
     verdict (Coarsen.sa_formula_ok sc omega a (reshape a fl) pt p));
+  reg "o.emin_formula" (fun t -> let a = t_crs t in let fl = t_ivec t in let naggr = t_i t in let id = t_zvec t in
+    let p = t_crs t in let r = t_crs t in
+    let pt = Tentative.tentative_prolongation sc naggr id in
+    verdict (Coarsen.emin_formula_ok sc a (reshape a fl) pt p r));
   reg "o.sa_rowsum" (fun t -> let a = t_crs t in let fl = t_ivec t in let p = t_crs t in
     verdict (Coarsen.sa_rowsum_ok sc a (reshape a fl) p));
   reg "o.rs_rowsum" (fun t -> let dt = t_i t in let et = t_q t in let a = t_crs t in let fl = t_ivec t in
